@@ -429,6 +429,9 @@ pub fn explore_states(
         for a in &path[..silent] {
             sys.apply(a)?;
             cur.push(a.clone());
+            // monitors may keep history (ownership model, select first-entry times): let them
+            // observe the prefix; its findings were reported when these states were first visited
+            let _ = mon.after(&mut sys, a);
         }
         let mut next: Option<Act> = path.last().cloned();
         if path.is_empty() {
